@@ -9,7 +9,8 @@ EXTENDS Build, TLC, Json
 CONSTANTS
   Specs,        \* set of specifier ids present in the world
   WithItems,    \* modules that may carry import items
-  MaxRoot,      \* max items of "r"
+  Big,          \* modules that may carry up to MaxRoot items
+  MaxRoot,      \* max items of the modules in Big
   MaxOther,     \* max items of the others
   Forms,        \* import forms
   Targets,      \* allowed import targets (subset of Specs, may contain "!bad")
@@ -21,7 +22,8 @@ CONSTANTS
   SelfTypes,    \* set of <<module, target>> pairs allowed as @ts-self-types
   TsTypes,      \* set of targets usable in a @ts-types pragma
   JsonAttr,     \* TRUE: imports of .json targets may carry `with {type: "json"}`
-  Emit          \* TRUE: print REPLAY lines
+  Emit,         \* TRUE: print REPLAY lines
+  Edits         \* TRUE: also choose one source edit (C19 reload histories)
 
 \* global vocabulary: media class by extension and scheme of every id the profiles use
 ExtT == [r |-> "ts", a |-> "ts", b |-> "js", c |-> "ts", d |-> "dts", j |-> "json", g |-> "noext",
@@ -31,13 +33,15 @@ SchT == [r |-> "file", a |-> "file", b |-> "file", c |-> "file", d |-> "file", j
 
 \* values a .cfg cannot express (tuples), substituted with `<-`
 Roots_r == {<<"r">>}
-Roots_rg == {<<"r">>, <<"r", "g">>, <<"g">>, <<"j">>}
+Roots_rg == {<<"r">>, <<"r", "g">>, <<"g">>, <<"j">>, <<"g", "r">>, <<"a", "r">>}
+Roots_h == {<<"h">>, <<"r">>, <<"q">>}
+Roots_ra == {<<"r">>, <<"a">>}
 ST_none == {}
 ST_bd == {<<"b", "d">>}
 ST_bd_bm == {<<"b", "d">>, <<"b", "m">>}
 
-VARIABLES w, step
-vars == <<w, step>>
+VARIABLES w, edit, step
+vars == <<w, edit, step>>
 
 AttrsFor(t) == IF JsonAttr /\ t \in DOMAIN ExtT /\ ExtT[t] = "json" THEN {"none", "json"} ELSE {"none"}
 ItemSet(s) ==
@@ -57,7 +61,7 @@ SeqsUpTo(S, n) == UNION { [1..k -> S] : k \in 0..n }
 StChoices(s) == {"-"} \cup { pr[2] : pr \in { q \in SelfTypes : q[1] = s } }
 RespSet(s) ==
   { [k |-> "mod", items |-> its, st |-> st] :
-      its \in (IF s \in WithItems THEN SeqsUpTo(Items(s), IF s = "r" THEN MaxRoot ELSE MaxOther) ELSE {<<>>}),
+      its \in (IF s \in WithItems THEN SeqsUpTo(Items(s), IF s \in Big THEN MaxRoot ELSE MaxOther) ELSE {<<>>}),
       st \in StChoices(s) }
   \cup (IF s \in MayMiss THEN {[k |-> "missing"]} ELSE {})
   \cup (IF s \in MayErr THEN {[k |-> "err"], [k |-> "external"]} ELSE {})
@@ -92,7 +96,13 @@ Init ==
        IN /\ w = [mods |-> [s \in Specs |-> all[s]], ext |-> [s \in Specs |-> ExtT[s]], sch |-> [s \in Specs |-> SchT[s]], roots |-> roots]
           /\ SameAttr(w)
           /\ Canonical(w)
-Next == step = 0 /\ step' = 1 /\ UNCHANGED w
+  /\ \E es \in (IF Edits THEN Specs ELSE {"-"}) :
+       \E nr \in (IF Edits THEN RespSet(es) ELSE {[k |-> "absent"]}) :
+          /\ edit = [s |-> es, resp |-> nr]
+          \* the edited specifier had a source (module, missing, failing) in the old world; a specifier that used to
+          \* answer with a redirect has no source of its own to reload (reload() documents itself as naive)
+          /\ Edits => (nr # w.mods[es] /\ es \in SyntReach(w, SeqToSet(w.roots)) /\ w.mods[es].k # "redirect")
+Next == step = 0 /\ step' = 1 /\ UNCHANGED <<w, edit>>
 Spec == Init /\ [][Next]_vars
 
 Kinds == {"all", "code", "types"}
@@ -138,8 +148,20 @@ C19Inv == step = 1 => \A k \in Kinds : \A r2 \in Specs :
       /\ (\A s \in (DOMAIN inc.slots) \cup (DOMAIN once.slots) :
             (s \in DOMAIN inc.slots /\ s \in DOMAIN once.slots /\ SlotObs(inc.slots[s]) = SlotObs(once.slots[s])) \/ s \in CtxTargets)
 
+\* C19 (second half): reload of an edited specifier converges to the from-scratch build of the new sources
+W2 == IF Edits THEN [w EXCEPT !.mods[edit.s] = edit.resp] ELSE w
+R(k) == Reload(W2, B(k), <<edit.s>>, Opt(k))
+Fresh(k) == Build(W2, w.roots, Opt(k))
+C19ReloadInv == (step = 1 /\ Edits) => \A k \in Kinds :
+   LET g1 == B(k)  g2 == R(k)  fr == Fresh(k)
+       reach == (DOMAIN fr.slots) \cup (DOMAIN fr.redirects)
+   IN /\ NoPending(g2)
+      /\ \A s \in DOMAIN fr.slots : (s \in DOMAIN g2.slots /\ SlotObs(g2.slots[s]) = SlotObs(fr.slots[s])) \/ s \in CtxTargets
+      /\ \A s \in (DOMAIN g1.slots) \ (reach \cup {edit.s}) : s \in DOMAIN g2.slots /\ g2.slots[s] = g1.slots[s]
+
 \* ---- emission ----------------------------------------------------------------
 NoSch(g) == [f \in (DOMAIN g) \ {"sch"} |-> g[f]]
-Case == [w |-> w, graphs |-> [k \in Kinds |-> NoSch(B(k))]]
+Case == IF Edits THEN [w |-> w, graphs |-> [k \in Kinds |-> NoSch(B(k))], edit |-> edit, reloaded |-> [k \in Kinds |-> NoSch(R(k))]]
+        ELSE [w |-> w, graphs |-> [k \in Kinds |-> NoSch(B(k))]]
 EmitInv == (step = 1 /\ Emit) => PrintT(<<"REPLAY", ToJson(Case)>>)
 =============================================================================
